@@ -234,9 +234,9 @@ PROPS = {
         "level": "exploration",
         "rule": ("one run = a seeded data source (1-12 features over all 12 feature types, structured dims up to 3x3x2, 1-300 classes with the storage boundaries "
                  "255/256/257, 1-200 samples, arbitrary missing-value masks, target of any type or absent), a generator stack (four identity generators, each over all "
-                 "features or a subset, plus the pairwise product), a dataset pool of 1-16 workers and a HISTORY of 3-12 operations: direct flatten / targets / select "
+                 "features or a subset, the pairwise product, the gradient generator over image-shaped structured features), a dataset pool of 1-16 workers and a HISTORY of 3-12 operations: direct flatten / targets / select "
                  "with index lists that repeat, reverse and touch N-1; flatten / select iterators through the pool whose callbacks yield before reading the per-thread "
-                 "buffer; drop, shuffle (entropy seam), reset; boundary probes (index N, -1, beyond N, feature F, -1); a reference model (stored values + drop set + "
+                 "buffer; drop, shuffle (entropy seam), reset; boundary probes (index N, -1, beyond N, around 2^8..2^63, feature F, -1); a reference model (stored values + drop set + "
                  "reported permutations + independently written encoders) decides every view; non-trivial = at least 2 simulated threads and 1 context switch; "
                  "distinct = distinct trace hash"),
         "batches": [
@@ -250,14 +250,15 @@ PROPS = {
         "gate": {"quick": 60, "thorough": 500},
         "shrink": [("ops", 3), ("max_samples", 10), ("pool", 1), ("pool", 2), ("cores", 2), ("sim_faults", 0), ("p_spurious_ppm", 0), ("p_eagain_ppm", 0)],
         "expected_probes": ["op_direct_flatten", "op_direct_targets", "op_direct_select", "op_iterator_flatten", "op_iterator_select", "op_drop", "op_shuffle",
-                            "op_reset", "op_boundary_probe", "rt_futex_blocked"],
-        "real": REAL_COMMON + ["datasource_t storage / masks, the identity and pairwise-product generators, dataset_t bookkeeping, flatten / targets / select, "
+                            "op_reset", "op_boundary_probe", "gradient_features", "rt_futex_blocked"],
+        "real": REAL_COMMON + ["datasource_t storage / masks, the identity, pairwise-product and gradient generators, dataset_t bookkeeping, flatten / targets / select, "
                                "drop / shuffle / undrop / unshuffle, flatten and select iterators with caches over the dataset pool"],
         "stub": STUB_COMMON + ["std::random_device behind generator_t::shuffle: the seeded entropy seam (the permutation is replayable)"],
         "assumptions": ASSUME_COMMON + [
             "only the iterator / pool clauses and the shuffle entropy depend on a schedule or seed; the encoding and range-check clauses ride along because the history generator produces schemas and index lists anyway",
             "drop after shuffle (or shuffle after drop) of the SAME feature and undrop / unshuffle in isolation are not generated: the statement does not say what either does to the other's flags",
-            "the gradient generator is not part of the stack yet; the library requires a target value for every sample, so targets are never missing",
+            "gradient features have no independent reference encoder: their reference is their own direct per-feature view captured before the history starts, which every later view (flatten, iterators, any index list, drop / shuffle / undo, any simulated worker) must reproduce bit for bit - the statement's 'per-feature view and flattened view agree' clause",
+            "the library requires a target value for every sample, so targets are never missing",
             "iterator outputs with scaling 'none' map missing values to zero (C14); direct views keep NaN / -1",
         ],
     },
